@@ -194,6 +194,15 @@ func runC10(c *core.Ctx) {
 	if adversarial {
 		n = r.Range(200, 3000)
 	}
+	soak := false
+	if c.Tier == "thorough" && !adversarial && c.Index%3000 == 5 {
+		n = r.Range(5000, 20000)
+		soak = true
+		h.weights[opClear] = 0
+		h.weights[opChangeMapping] = 1
+		c.Count("soak.histories", 1)
+		c.Count("soak.operations", n)
+	}
 	ops := h.gen(n)
 	st := newSkState(c, "x", true, m, spec)
 	c.Logf("exact sketch, mapping %s, store %s, pattern %s", m.Desc, spec, pattern)
@@ -211,7 +220,7 @@ func runC10(c *core.Ctx) {
 			return
 		}
 		kinds[op.kind] = true
-		if !adversarial || i%97 == 0 || i == len(ops)-1 {
+		if (!adversarial && !soak) || i%97 == 0 || i == len(ops)-1 {
 			checkExactStats(c, st)
 		}
 		if c.Failed() {
@@ -473,14 +482,24 @@ func runC12(c *core.Ctx) {
 	h.exact = exact
 	h.anySpec = true
 	h.weights[opReweight] = 2
-	ops := h.gen(r.Range(1, 50))
+	nOps := r.Range(1, 50)
+	checkEvery := 1
+	if c.Tier == "thorough" && c.Index%3000 == 5 {
+		// soak: one long history on one sketch, coherence evaluated at checkpoints
+		nOps = r.Range(5000, 20000)
+		checkEvery = 211
+		h.weights[opClear] = 0
+		c.Count("soak.histories", 1)
+		c.Count("soak.operations", nOps)
+	}
+	ops := h.gen(nOps)
 	st := newSkState(c, "x", exact, m, spec)
 	c.Logf("sketch exact=%v mapping %s store %s shape %s", exact, m.Desc, spec, pattern)
 	c.SigS(m.Desc)
 	c.SigS(spec.String())
 	c.SigS(pattern)
 	mergeOrDecode := false
-	for _, op := range ops {
+	for oi, op := range ops {
 		c.SigI(op.kind)
 		c.SigF(op.v)
 		c.SigF(op.w)
@@ -489,6 +508,9 @@ func runC12(c *core.Ctx) {
 		}
 		if op.kind == opMerge || op.kind == opDecodeMerge || op.kind == opRoundTrip {
 			mergeOrDecode = true
+		}
+		if checkEvery > 1 && oi%checkEvery != 0 && oi != len(ops)-1 {
+			continue
 		}
 		checkCoherence(c, st)
 		if c.Failed() {
